@@ -57,6 +57,7 @@ pub enum Expect {
     Any,
 }
 
+#[derive(Clone)]
 pub struct Engine {
     pub ch: Chain,
     pub a: Addrs,
